@@ -29,7 +29,7 @@ type lblOp struct {
 }
 
 type lblStructure struct {
-	ncaches []int  // per name
+	ncaches []int // per name
 	kinds   [][]string
 	ops     []lblOp
 	final   []string
@@ -130,7 +130,7 @@ type lblWorld struct {
 	injectAt    int
 	injectArmed bool // only the final invalidation of a run is subject to the injection
 	inject      func()
-	during   []lblOp
+	during      []lblOp
 }
 
 func newLblWorld(c *Case, st *lblStructure) *lblWorld {
